@@ -122,6 +122,19 @@ def run(ctx, B):
             else:
                 rec = X.call(F.fn, Zc, Ac)
             ctx.add(evaluations=len(Zc))
+            # every query twice in a row, in the same process: value and error status of a lookup must not depend on the call before it (a one-entry
+            # memo whose key is written before the lookup fails turns the REPEATED out-of-range call into a value)
+            Z2, A2 = np.repeat(Zc, 2), np.repeat(Ac, 2)
+            rec2 = X.call(F.fn, Z2, np.repeat(Sc, 2), A2) if F.shell else X.call(F.fn, Z2, A2)
+            ctx.add(evaluations=len(Z2))
+            for half in (0, 1):
+                rr_ = rec2[half::2]
+                dif = np.nonzero((rr_["v0"].view(np.uint64) != rec["v0"].view(np.uint64)) | ((rr_["flags"] & F_ERR) != (rec["flags"] & F_ERR)))[0]
+                for j in dif[:5]:
+                    a = [int(Zc[j])] + ([int(Sc[j])] if F.shell else []) + [float(Ac[j])]
+                    ctx.violation("%s|%s|Z=%d|repeat-differs" % (cfg, F.fn, int(Zc[j])), "%s%r: value=%r err=%s when called once, value=%r err=%s as %s of two identical consecutive calls" % (
+                        F.fn, tuple(a), float(rec["v0"][j]), bool(rec["flags"][j] & F_ERR), float(rr_["v0"][j]), bool(rr_["flags"][j] & F_ERR), "the first" if half == 0 else "the second"),
+                        dict(cfg=cfg, calls=[dict(fn=F.fn, args=a), dict(fn=F.fn, args=a)]))
             edges = None
             if fam == "KPP":
                 # public EdgeEnergy per (Z, shell) of the same build (0 + error when absent / shell >= 28)
